@@ -198,3 +198,65 @@ def first(evs, name):
 
 def all_named(evs, *names):
     return [e for e in evs if e.name in names]
+
+
+# ---------------------------------------------------------------------------------------------------------------
+# attribution of who-may-write / inventory findings: a private helper (or closure) acts on behalf of its callers
+# ---------------------------------------------------------------------------------------------------------------
+
+def _callers(facts):
+    c = getattr(facts, '_callers', None)
+    if c is not None:
+        return c
+    c = {}
+    for key, b in facts.bodies.items():
+        for bb, t in b.all_calls():
+            fn = t.get('fn')
+            if fn and fn.get('local'):
+                for cand in (fn['path'], fn.get('resolved')):
+                    if cand and cand in facts.bodies:
+                        c.setdefault(cand, set()).add(key)
+        for blk in b.blocks:
+            for s in blk['stmts']:
+                if s['k'] == 'assign' and s['rv']['k'] == 'agg' and s['rv'].get('ak') == 'closure' and s['rv'].get('name') in facts.bodies:
+                    c.setdefault(s['rv']['name'], set()).add(key)
+    facts._callers = c
+    return c
+
+
+def is_delegate(facts, key):
+    """a body that only exists as part of its callers: closures and private spliceable helpers"""
+    b = facts.bodies.get(key)
+    if b is None:
+        return False
+    if b.j.get('def_kind') == 'Closure':
+        return True
+    return mir.private_helper(b)
+
+
+def owners(ctx, key):
+    """the API / atomic bodies on whose behalf `key` runs ({key} itself unless it is a delegate); empty = dead code"""
+    facts = ctx.facts
+    if not is_delegate(facts, key):
+        return {key}
+    callers = _callers(facts)
+    roots = set()
+    seen = {key}
+    work = [key]
+    while work:
+        k = work.pop()
+        for c in callers.get(k, ()):
+            if c in seen:
+                continue
+            seen.add(c)
+            if is_delegate(facts, c):
+                work.append(c)
+            else:
+                roots.add(c)
+    return roots
+
+
+def allowed_for(ctx, key, allowed):
+    """True if every owner of `key` is in `allowed` (dead code counts as allowed)"""
+    os_ = owners(ctx, key)
+    return all(o in allowed for o in os_)
